@@ -87,12 +87,27 @@ CtsTables ==
                     : enc \in RunEncodings(cs, LAMBDA c, o : [count |-> c, offset |-> o]) }
                  : cs \in Tuples({-1, 0, 2}, n) }
          : n \in 1..MaxNT }
+\* (iii') a run of zero samples (legal: "sample_count" may be 0) at every position of a time or
+\* composition-offset table; its value differs from every value used
+WithZeroRun(enc, z) == { SubSeq(enc, 1, p - 1) \o <<z>> \o SubSeq(enc, p, Len(enc)) : p \in 1..(Len(enc) + 1) }
+ZeroRunTables ==
+  UNION { UNION { UNION { { [BaseTbl(n) EXCEPT !.ctts = [some |-> TRUE, entries |-> e]]
+                            : e \in WithZeroRun(enc, [count |-> 0, offset |-> 9]) }
+                          : enc \in RunEncodings(cs, LAMBDA c, o : [count |-> c, offset |-> o]) }
+                 : cs \in Tuples({-1, 2}, n) }
+         : n \in 1..MaxNT }
+  \cup
+  UNION { UNION { UNION { { [BaseTbl(n) EXCEPT !.stts = e]
+                            : e \in WithZeroRun(enc, [count |-> 0, delta |-> <<9>>]) }
+                          : enc \in RunEncodings(ds, LAMBDA c, d : [count |-> c, delta |-> FromInt(d)]) }
+                 : ds \in Tuples({1, 2}, n) }
+         : n \in 1..MaxNT }
 \* (iv) sync tables: empty, every subset
 SyncTables ==
   UNION { { [BaseTbl(n) EXCEPT !.stss = [some |-> TRUE, entries |-> SortedSeq(S)]] : S \in SUBSET (1..n) }
          : n \in 1..MaxNT }
 
-AllTables == StructTables \cup TimeTables \cup CtsTables \cup SyncTables
+AllTables == StructTables \cup TimeTables \cup CtsTables \cup ZeroRunTables \cup SyncTables
 
 Track(kind, ts, tb) == [kind |-> kind, timescale |-> ts, tbl |-> tb]
 
